@@ -831,6 +831,17 @@ func (vc *VC) trCall(env *SpecEnv, c *ECall) Val {
 		return boolVal(fmt.Sprintf("(= %s %s)", a.Sl.Arr, b.Sl.Arr))
 	case "dyntype":
 		return intVal(fmt.Sprintf("(dyntype %s)", arg(0).T))
+	case "typeimpl":
+		// typeimpl(x, I): x is non-nil and its dynamic type implements interface I (what `x.(I)` tests)
+		v := arg(0)
+		t := vc.resolveType(env, exprName(c.Args[1]))
+		if t == nil {
+			return boolVal("false")
+		}
+		if it, ok := t.Underlying().(*types.Interface); ok && it.NumMethods() == 0 {
+			return boolVal(fmt.Sprintf("(not (= %s 0))", v.T))
+		}
+		return boolVal(fmt.Sprintf("(and (not (= %s 0)) (implements (dyntype %s) %d))", v.T, v.T, vc.typeTag(t)))
 	case "typeis":
 		v := arg(0)
 		t := vc.resolveType(env, exprName(c.Args[1]))
